@@ -70,7 +70,7 @@ def parseOp : List String → Option Op
     pure (.createBucket (← Bytes.ofHex b) (← parseCanned acl) (← parseOwnership own) (lock = "1") (valid = "1"))
   | ["deleteBucket", b] => do pure (.deleteBucket (← Bytes.ofHex b))
   | ["headBucket", b] => do pure (.headBucket (← Bytes.ofHex b))
-  | ["listBuckets"] => some .listBuckets
+  | ["listBuckets", pfx, token, max] => do pure (.listBuckets (← Bytes.ofHex pfx) (← Bytes.ofHex token) (← max.toNat?))
   | ["putBucketPolicy", b, id, stmts, valid] => do pure (.putBucketPolicy (← Bytes.ofHex b) (← parsePolicy id stmts) (valid = "1"))
   | ["getBucketPolicy", b] => do pure (.getBucketPolicy (← Bytes.ofHex b))
   | ["deleteBucketPolicy", b] => do pure (.deleteBucketPolicy (← Bytes.ofHex b))
